@@ -1319,6 +1319,7 @@ void f_bind (void) {
 
   new_fp = ALLOCATE (funptr_t, TAG_FUNP, "f_bind");
   *new_fp = *old_fp;
+  new_fp->hdr.ref = 1;		/* the copy is held by the stack only, whoever holds the original */
   new_fp->hdr.owner = ob;	/* one ref from being on stack */
   if (new_fp->hdr.args)
     new_fp->hdr.args->ref++;
